@@ -1466,7 +1466,194 @@ def st_bucket_number(tier):
 # --------------------------------------------------------------------------
 # declarations
 # --------------------------------------------------------------------------
+
+# --------------------------------------------------------------------------
+# sequences / tables over alphabets that differ from the table alphabet
+# --------------------------------------------------------------------------
+MM_LETTERS = "ACGTNRYKMSWB"
+MM_KINDS = ["same", "prefix", "infix", "infix", "suffix", "perm", "superset", "superset"]
+
+
+def _mm_derive(draw, base, kind):
+    n = len(base)
+    if kind == "same":
+        return base
+    if kind == "prefix":
+        return base[: draw(st.integers(2, n))]
+    if kind == "infix":
+        i = draw(st.integers(1, n - 2))
+        return base[i : draw(st.integers(i + 2, n))]
+    if kind == "suffix":
+        return base[draw(st.integers(1, n - 2)) :]
+    if kind == "perm":
+        return "".join(draw(st.permutations(list(base))))
+    extra = [c for c in MM_LETTERS if c not in base]
+    return base + "".join(draw(st.lists(st.sampled_from(extra), min_size=1, max_size=2, unique=True)))
+
+
+def st_alphabet_mismatch(tier):
+    @st.composite
+    def gen(draw):
+        n = draw(st.integers(3, 6))
+        base = "".join(draw(st.lists(st.sampled_from(MM_LETTERS), min_size=n, max_size=n, unique=True)))
+        k = draw(st.sampled_from([2, 2, 3]))
+        maxlen = 12 if tier == "quick" else 30
+        # reference sequences: alphabets of the references of one table
+        ref_kinds = [draw(st.sampled_from(["same", "same", "prefix", "infix", "superset", "perm"])) for _ in range(draw(st.integers(1, 3)))]
+        refs = []
+        for kind in ref_kinds:
+            alph = _mm_derive(draw, base, kind)
+            refs.append({"alph": alph, "kind": kind, "seq": draw(st.text(alph, min_size=k, max_size=maxlen))})
+        qkind = draw(st.sampled_from(MM_KINDS))
+        qalph = _mm_derive(draw, base, qkind)
+        # the query re-uses pieces of the references where its alphabet allows (so that matches exist)
+        src = "".join(ch for r in refs for ch in r["seq"] if ch in qalph)
+        query = (src[: draw(st.integers(0, len(src)))] + draw(st.text(qalph, min_size=0, max_size=maxlen)))[:maxlen]
+        if len(query) < k:
+            query = (query + qalph * k)[:k]
+        okind = draw(st.sampled_from(MM_KINDS))
+        oalph = _mm_derive(draw, base, okind)
+        other = draw(st.text(oalph, min_size=k, max_size=maxlen))
+        return {
+            "base": base, "k": k, "refs": refs, "query": {"alph": qalph, "kind": qkind, "seq": query},
+            "other": {"alph": oalph, "kind": okind, "seq": other}, "bucket": draw(st.booleans()),
+            "explicit": draw(st.booleans()),
+        }
+
+    return gen()
+
+
+def _mm_seq(text, alph):
+    from biotite.sequence import GeneralSequence, LetterAlphabet
+
+    return GeneralSequence(LetterAlphabet(alph), text)
+
+
+def _mm_naive(query, refs, k):
+    """symbol-wise matches of contiguous k-mers: (query pos, ref index, ref pos)"""
+    out = []
+    for ri, r in enumerate(refs):
+        for rp in range(len(r) - k + 1):
+            for qp in range(len(query) - k + 1):
+                if query[qp : qp + k] == r[rp : rp + k]:
+                    out.append((qp, ri, rp))
+    return sorted(out)
+
+
+def run_alphabet_mismatch(case):
+    """The index is defined on symbols.  Where a sequence or a table over another alphabet is
+    handed in, the only accepted outcomes are the documented ValueError (alphabet does not
+    extend / no common alphabet / different k-mer alphabets) or the symbol-wise correct result -
+    never matches computed from codes of different alphabets."""
+    from biotite.sequence import LetterAlphabet
+    from biotite.sequence.align import BucketKmerTable, KmerTable
+
+    o = Outcome()
+    base, k = case["base"], case["k"]
+    Table = BucketKmerTable if case["bucket"] else KmerTable
+    refs = case["refs"]
+    ref_texts = [r["seq"] for r in refs]
+    ref_seqs = [_mm_seq(r["seq"], r["alph"]) for r in refs]
+    alphs = [r["alph"] for r in refs]
+    o.label(*[f"ref_kind={r['kind']}" for r in refs], f"query_kind={case['query']['kind']}", f"other_kind={case['other']['kind']}")
+
+    # ---- from_sequences: is there an alphabet that extends all reference alphabets?
+    if case["explicit"]:
+        table_alph = base
+        fits = all(base.startswith(a) for a in alphs)
+        kwargs = {"alphabet": LetterAlphabet(base)}
+    else:
+        longest = max(alphs, key=len)
+        fits = all(longest.startswith(a) for a in alphs)
+        table_alph = longest
+        kwargs = {}
+    # match_table() of bucketed tables requires the same number of buckets on both sides
+    bucket_kw = {"n_buckets": 11} if case["bucket"] else {}
+    kwargs.update(bucket_kw)
+    try:
+        table = Table.from_sequences(k, ref_seqs, **kwargs)
+    except ValueError:
+        o.label("from_sequences_rejected")
+        o.check(not fits, "compatible_alphabets_accepted", lambda: f"from_sequences raised ValueError although {table_alph!r} extends {alphs}")
+        o.mark_nontrivial(not fits)
+        return o
+    if not fits:
+        o.label("from_sequences_accepted_mixed_alphabets")
+        in_table = all(ch in table_alph for t in ref_texts for ch in t)
+        if not in_table:
+            o.fail("incompatible_alphabet_rejected", f"from_sequences indexed references over {alphs} without a common alphabet")
+            return o
+    real_alph = "".join(table.alphabet.get_symbols()) if hasattr(table, "alphabet") else table_alph
+    # content of the table, symbol-wise
+    ka = table.kmer_alphabet
+    want_content = sorted((t[p : p + k], ri, p) for ri, t in enumerate(ref_texts) for p in range(len(t) - k + 1))
+    got_content = []
+    for code in table.get_kmers():
+        kmer = "".join(ka.decode(int(code)))
+        for ri, p in table[int(code)].tolist():
+            got_content.append((kmer, int(ri), int(p)))
+    o.check_eq(sorted(got_content), want_content, "table_holds_exactly_the_reference_kmers", f"references {ref_texts} over {alphs}")
+
+    # ---- match(sequence over another alphabet)
+    q = case["query"]
+    q_fits = real_alph.startswith(q["alph"])
+
+    def do_match():
+        return table.match(_mm_seq(q["seq"], q["alph"]))
+
+    want = _mm_naive(q["seq"], ref_texts, k)
+    if q_fits:
+        got = do_match()
+        o.check_eq(sorted(map(tuple, got.tolist())), want, "matches_exactly_identical_kmers", f"query {q['seq']!r} over {q['alph']!r}, table alphabet {real_alph!r}")
+    else:
+        try:
+            got = do_match()
+        except ValueError:
+            o.label("query_rejected")
+        else:
+            o.label("query_accepted_although_not_extended")
+            o.check_eq(
+                sorted(map(tuple, got.tolist())), want, "incompatible_alphabet_rejected",
+                f"match() accepted a query over {q['alph']!r} (table alphabet {real_alph!r}) and returned matches that are not the identical k-mers",
+            )
+    # ---- match_table(table over another alphabet)
+    ot = case["other"]
+    other_table = Table.from_sequences(k, [_mm_seq(ot["seq"], ot["alph"])], **bucket_kw)
+    same_alph = ot["alph"] == real_alph
+    # rows: (ref id other, pos other, ref id self, pos self)
+    want_t = sorted(
+        (0, op, ri, rp)
+        for ri, t in enumerate(ref_texts)
+        for rp in range(len(t) - k + 1)
+        for op in range(len(ot["seq"]) - k + 1)
+        if ot["seq"][op : op + k] == t[rp : rp + k]
+    )
+    for a, b, swap in ((table, other_table, False), (other_table, table, True)):
+        try:
+            got_t = a.match_table(b)
+        except ValueError:
+            o.label("match_table_rejected")
+            o.check(not same_alph, "compatible_alphabets_accepted", "match_table raised ValueError for equal alphabets")
+            continue
+        rows = sorted((r[2], r[3], r[0], r[1]) if swap else tuple(r) for r in map(tuple, got_t.tolist()))
+        clause = "matches_exactly_identical_kmers" if same_alph else "incompatible_alphabet_rejected"
+        o.check_eq(rows, want_t, clause, f"match_table between tables over {real_alph!r} and {ot['alph']!r} (swapped={swap})")
+        if not same_alph:
+            o.label("match_table_accepted_different_alphabets")
+    o.mark_nontrivial(not (q_fits and same_alph and all(a == base for a in alphs)))
+    return o
+
+
 SUBS = [
+    Sub(
+        "alphabet_mismatch",
+        st_alphabet_mismatch,
+        run_alphabet_mismatch,
+        quick=1600,
+        thorough=60000,
+        rule="a reference, query or second table over an alphabet that is not the table alphabet (prefix, infix, suffix, permutation, superset)",
+        clauses="matches are defined on symbols: a foreign alphabet is either rejected with ValueError or handled symbol-wise correctly (from_sequences, match, match_table; both table variants)",
+    ),
     Sub(
         "table_match",
         st_table_match,
